@@ -53,7 +53,7 @@ func Ident(t *rapid.T, label string, pool []string) string {
 // TextAlphabet: what a SQL string literal can carry through mkdb's scanner,
 // which has no quote escaping: printable characters except ' and \, no line
 // breaks. A few multi-byte runes are included.
-var textRunes = []rune("abcdefghijklmnopqrstuvwxyzABCXYZ0123456789 _-;,.:\"()*=<>!/%#éß日本")
+var textRunes = []rune("abcdefghijklmnopqrstuvwxyzABCXYZ0123456789 _-;,.:\"()*=<>!/%#éß日本‘’“”«»`´\u00a0")
 
 // escape units: the scanner (a copy of Go's text/scanner) treats a backslash
 // inside a string token as the start of an escape and keeps the raw text, so
@@ -81,7 +81,9 @@ func TextString(t *rapid.T, label string, maxLen int) string {
 
 // SmallText draws from a tiny domain so that equal values and matches are common.
 func SmallText(t *rapid.T, label string) string {
-	return rapid.SampledFrom([]string{"", "a", "b", "ab", "abc", "b;c", "zz", "A", "1", "12", "x y"}).Draw(t, label)
+	return rapid.SampledFrom([]string{"", "a", "b", "ab", "abc", "b;c", "zz", "A", "1", "12", "x y",
+		// near-duplicates: trailing / leading blanks, letter case, numeric look-alikes
+		"a ", "a  ", " a", "ab ", "Ab", "aB", "01", "1 ", "1.0", "12 "}).Draw(t, label)
 }
 
 // Value draws a valid value for the column type. direct=true allows what SQL
@@ -219,7 +221,13 @@ func PlainIdent(name string) bool {
 
 // exotic names: keywords and odd characters (only expressible as delimited
 // identifiers) and names in other scripts (which may also be written bare)
-var exoticNames = []string{"select", "From", "ORDER", "my col", "a-b", "x.y", "t 0", ";semi", "(p)", "1st", "été", "and", "count", " lead", "a,b", "élève", "über", "имя", "größe", "名前", "prénom", "naïve_2", "_x", "ñ"}
+var exoticNames = []string{"select", "From", "ORDER", "my col", "a-b", "x.y", "t 0", ";semi", "(p)", "1st", "été", "and", "count", " lead", "a,b", "élève", "über", "имя", "größe", "名前", "prénom", "naïve_2", "_x", "ñ",
+	// ordinary names that begin or end with a keyword
+	"database_name", "distinct_users", "selection", "fromage", "ordering", "limit_1", "offsets", "tables", "values2", "setup",
+	"android", "order_id", "group_id", "counted", "avg_price", "int_col", "boolean_flag", "nulls", "trueish", "into_x", "ascii",
+	"description", "as_of", "bypass", "inner_id", "joined", "useful", "showing", "wherever", "created_at", "deleted", "updated_by",
+	"likes", "minimum", "summary", "unions", "ending", "cases", "begins", "uniques", "t_select", "x_from", "my_table", "is_null",
+	"Database_Name", "DISTINCT_USERS", "Ordering"}
 
 // IdentX is Ident with, now and then, a name that needs double quotes.
 func IdentX(t *rapid.T, label string, pool []string) string {
